@@ -356,21 +356,28 @@ def h_pipeline(c, op1, op2, n):
         f2 = OPS[op2][0](c, n)
         mids = []
 
+        from symv.engine import PathAbort
+
+        def _nonempty(y):
+            if y.number_of_nodes() == 0:
+                raise PathAbort()  # a step that removes the root (empty result) is outside the claim, as in `step`
+            return y
+
         class Tap:
             def __call__(self, x):
                 mids.append(x)
-                return f1(x)
+                return _nonempty(f1(x))
 
         class Tap2:
             def __call__(self, x):
                 mids.append(x)
-                return f2(x)
+                return _nonempty(f2(x))
 
         snap = _snap(t)
         pipe = Transforms(Tap(), Tap2())
         if op2 == "normalizer":
             # the precondition of the second step is about the intermediate tree
-            mid = f1(t)
+            mid = _nonempty(f1(t))
             for k in ("x", "y", "z", "r"):
                 from symv.api import vmax
 
@@ -425,7 +432,7 @@ HARNESSES = [
       functions=FUNCTIONS, bounds="each of the 17 operations applied once (and a second time) to every numbering of every tree with n in {1,3} (quick) / 4 (thorough) nodes; arguments: every node id / removal set / callback verdict pattern / order / type, real thresholds, factors, offsets, any angle and unit axis, windows {1,2,3,5}, spacing in [1,2]"),
     H("redirect_unsorted", h_redirect_unsorted, quick=[dict(n=k) for k in (1, 2, 3, 4)], thorough=[dict(n=5)], functions=FUNCTIONS, bounds="n<=4/5, every new root, sort=False"),
     H("cat", h_cat, quick=[dict(n1=1, n2=1), dict(n1=2, n2=2), dict(n1=3, n2=2)], thorough=[dict(n1=3, n2=3)], functions=FUNCTIONS, bounds="pairs up to (3,2) quick / (3,3) thorough, every junction pair, both translate modes, also a tree concatenated onto itself"),
-    H("pipeline", h_pipeline, opts=dict(merge_minmax=True), quick=[dict(op1=a, op2=b, n=3) for a, b in PIPE_QUICK], thorough=[dict(op1=a, op2=b, n=3) for a, b in PIPE_ALL], functions=FUNCTIONS,
-      bounds="Transforms(op1, op2): 16 pairs covering every operation as first and as second step (quick) / all 256 ordered pairs (thorough) on every sorted tree with 3 nodes"),
+    H("pipeline", h_pipeline, opts=dict(merge_minmax=True), quick=[dict(op1=a, op2=b, n=3) for a, b in PIPE_QUICK], thorough=[dict(op1=a, op2=b, n=3) for a, b in PIPE_QUICK + [(b, a) for a, b in PIPE_QUICK]], functions=FUNCTIONS,
+      bounds="Transforms(op1, op2): 16 pairs covering every operation as first and as second step (quick) / those and their 16 reversals (thorough) on every sorted tree with 3 nodes"),
     H("swc_round_trip", h_swc_round_trip, quick=[dict(n=k) for k in (1, 2, 3, 4)], thorough=[dict(n=5)], functions=FUNCTIONS, bounds="every numbering of every tree with n<=4/5 nodes, concrete coordinates"),
 ]
